@@ -52,6 +52,10 @@ STUBS = {
     "hashseed": [("std::hash::RandomState::new", "crate::env::random_state_new")],
     # Fingerprint::empty() = blake3::hash(b"")
     "blake3empty": [("blake3::hash", "crate::env::blake3_hash_empty")],
+    # blake3 hasher as a logging model (ideal hash)
+    "hasher": [("blake3::Hasher::new", "iroh_docs::verif_incrate::crypto::hasher_new"),
+               ("blake3::Hasher::update", "iroh_docs::verif_incrate::crypto::hasher_update"),
+               ("blake3::Hasher::finalize", "iroh_docs::verif_incrate::crypto::hasher_finalize")],
     # blake3::Hash equality is constant_time_eq_32 (inline asm): plain comparison
     "cteq": [("constant_time_eq::constant_time_eq_32", "crate::env::ct_eq_32")],
 }
@@ -104,11 +108,12 @@ h("put_step_n3", "ranger_l::put_step::<S, 3>", ["C02", "C01"], "quick", unwind=9
 h("put_step_n4", "ranger_l::put_step::<S, 4>", ["C02", "C01"], "quick", unwind=9, family="put_step")
 h("put_commute_n4", "ranger_l::put_commute::<S, 4>", ["C02"], "quick", unwind=9, family="put_commute")
 PM_STUBS = DEFAULT_STUBS + ["cteq", "blake3empty"]
-h("pm_item_step_n3_v1_hl", "ranger_l::pm_item_step::<S, 3, 1, 1>", ["C01", "C03", "C12"], "quick", unwind=9, stubs=PM_STUBS, family="pm_item_step", cap=1800, mem_gb=24)
-h("pm_item_step_n3_v2_hl", "ranger_l::pm_item_step::<S, 3, 2, 1>", ["C01", "C03", "C12"], "quick", unwind=9, stubs=PM_STUBS, family="pm_item_step", cap=1800, mem_gb=24)
+# process_message is expensive for CBMC's symbolic execution (pointer value sets over Vec<MessagePart>): thorough tier only
+h("pm_item_step_n3_v1_hl", "ranger_l::pm_item_step::<S, 3, 1, 1>", ["C01", "C03", "C12"], "thorough", unwind=9, stubs=PM_STUBS, family="pm_item_step", cap=5400, mem_gb=40)
+h("pm_item_step_n3_v2_hl", "ranger_l::pm_item_step::<S, 3, 2, 1>", ["C01", "C03", "C12"], "thorough", unwind=9, stubs=PM_STUBS, family="pm_item_step", cap=5400, mem_gb=40)
 h("pm_item_step_n3_v1", "ranger_l::pm_item_step::<S, 3, 1, 2>", ["C01", "C03", "C12"], "thorough", unwind=9, stubs=PM_STUBS, family="pm_item_step", cap=5400, mem_gb=40)
 h("pm_item_step_n4_v2", "ranger_l::pm_item_step::<S, 4, 2, 2>", ["C01", "C03", "C12"], "off_generated", unwind=9, stubs=PM_STUBS, family="pm_item_step", cap=5400, mem_gb=40)
-h("pm_init_and_silence_n2", "ranger_l::pm_init_and_silence::<S, 2>", ["C01"], "quick", unwind=9, unwindset={r"BitXorAssign>::bitxor_assign\.0": 34, r"^memcmp\.0$": 34}, stubs=PM_STUBS, family="pm_init_and_silence", cap=1800, mem_gb=24)
+h("pm_init_and_silence_n2", "ranger_l::pm_init_and_silence::<S, 2>", ["C01"], "thorough", unwind=9, unwindset={r"BitXorAssign>::bitxor_assign\.0": 34, r"^memcmp\.0$": 34}, stubs=PM_STUBS, family="pm_init_and_silence", cap=5400, mem_gb=40)
 h("put_commute_n5", "ranger_l::put_commute::<S, 5>", ["C02"], "thorough", unwind=9, family="put_commute")
 
 # =============================================================================================
@@ -127,6 +132,9 @@ h("record_order", "sync::record_order::<S>", ["C01", "C02", "C08"], "quick", unw
 for k1, k2, tier in [(1, 1, "quick"), (1, 2, "quick"), (0, 1, "quick"), (2, 2, "thorough")]:
     h("record_id_order_%d_%d" % (k1, k2), "sync::record_id_order::<S, %d, %d>" % (k1, k2), ["C01", "C08"], tier, unwind=4,
       unwindset={r"^memcmp\.0$": 68}, stubs=SYNC_STUBS, family="record_id_order")
+for k in (0, 2):
+    h("fingerprint_input_%d" % k, "sync::fingerprint_input::<S, %d>" % k, ["C01", "C08"], "quick", unwind=4,
+      unwindset={r"^memcmp\.0$": 122, r"crypto::hasher_update\.0": 40, r"blake3::Hasher::update\.0": 40}, stubs=SYNC_STUBS + ["hasher"], family="fingerprint_input", kani_only=True, witness="fp")
 h("capability_merge", "sync::capability_merge::<S>", ["C07"], "quick", unwind=4, unwindset={r"^memcmp\.0$": 34, r"crypto::ideal_public\.0": 33, r"zeroize::Zeroize>::zeroize\.0": 34}, stubs=SYNC_STUBS)
 h("capability_raw_roundtrip", "sync::capability_raw_roundtrip::<S>", ["C07", "C09"], "quick", unwind=4,
   unwindset={r"^memcmp\.0$": 34, r"crypto::ideal_public\.0": 33, r"zeroize::Zeroize>::zeroize\.0": 34}, stubs=SYNC_STUBS)
@@ -158,8 +166,8 @@ h("c11_scheduler_k4", "engine_state::c11_scheduler::<S, 4>", ["C11"], "thorough"
 # public-item kernels (E1): C15 policies, C13 heads, C09 decoders
 # =============================================================================================
 K_STUBS = DEFAULT_STUBS + ["cteq", "fmt"]
-for f1, f2, k, tier in [(1, 0, 2, "quick"), (2, 1, 2, "quick"), (1, 2, 3, "thorough"), (0, 0, 0, "quick")]:
-    h("policy_matches_%d_%d_%d" % (f1, f2, k), "kernels::policy_matches::<S, %d, %d, %d>" % (f1, f2, k), ["C15", "C12"], tier,
+for f1, f2, k, nf, tier in [(1, 0, 2, 1, "quick"), (2, 1, 2, 2, "quick"), (1, 2, 3, 2, "thorough"), (0, 0, 0, 0, "quick"), (0, 1, 1, 2, "quick")]:
+    h("policy_matches_%d_%d_%d_n%d" % (f1, f2, k, nf), "kernels::policy_matches::<S, %d, %d, %d, %d>" % (f1, f2, k, nf), ["C15", "C12"], tier,
       unwind=4, unwindset={r"^memcmp\.0$": 5}, stubs=DEFAULT_STUBS + ["cteq"], family="policy_matches")
 for f, tier in [(0, "thorough"), (1, "thorough"), (2, "thorough")]:
     h("filter_text_roundtrip_%d" % f, "kernels::filter_text_roundtrip::<S, %d>" % f, ["C15", "C09"], tier,
